@@ -153,6 +153,7 @@ void m4ri_die(const char *errormessage, ...) {
 /* code books: the real generator, only for the k the scenario needs (DESIGN F2) */
 #if __M4RI_ENABLE_MMC && defined(VDIRTY_S0) && !defined(REPLAY)
 #include <m4ri/mmc.h>
+extern mmb_t m4ri_mmc_cache[__M4RI_MMC_NBLOCKS];
 /* C10: put recycled, dirty blocks of the sizes the scenario is about to request into the block cache
  * (CBMC's malloc returns nondeterministic contents), so "fresh" matrices and tables are handed
  * recycled memory with arbitrary contents */
